@@ -365,6 +365,12 @@ struct Client {
     /// 1 = HTTP/1.1 with an absolute-form target (`GET http://localhost/… HTTP/1.1`),
     /// 2 = HTTP/2 (one connection per request)
     form: u8,
+    /// a second instance of the same service (another process serving the same collections):
+    /// when given, consecutive pages of a scan are asked of the two instances alternately -
+    /// a page token is a position in the collection, not something held by the instance
+    /// that issued it
+    replica: Option<std::net::SocketAddr>,
+    flip: bool,
 }
 
 impl Client {
@@ -379,9 +385,21 @@ impl Client {
         }
         let target_owned = if self.form == 1 { format!("http://localhost{}", target) } else { target.to_string() };
         let target = target_owned.as_str();
+        let addr = match self.replica {
+            Some(r) => {
+                self.flip = !self.flip;
+                self.rr = None;
+                if self.flip {
+                    self.addr
+                } else {
+                    r
+                }
+            }
+            None => self.addr,
+        };
         for _attempt in 0..4 {
             if self.rr.is_none() {
-                match connect(self.addr) {
+                match connect(addr) {
                     Ok(s) => {
                         let _ = s.set_read_timeout(Some(std::time::Duration::from_secs(60)));
                         self.rr = Some(RespReader::new(s));
@@ -461,6 +479,7 @@ fn scan(cl: &mut Client, m: &Mode, n: u64, limit: Option<u64>, ranks: &HashMap<u
 
 fn main() {
     quiet_panics();
+    let is_replica = std::env::args().any(|a| a == "replica");
     let mut out = Out::new();
     let big: Vec<u64> = vec![99, 100, 101, 9999, 10000, 10001, 25000];
     let mut sizes: Vec<u64> = (0..=40).collect();
@@ -490,6 +509,33 @@ fn main() {
         start_server(api, Ctx { colls }, ServerOpts::default())
     });
     let addr = server.local_addr();
+    if is_replica {
+        // the second instance: say where, then serve until the parent closes our stdin
+        println!("{}", addr.port());
+        let _ = std::io::Write::flush(&mut std::io::stdout());
+        let mut sink = String::new();
+        let _ = std::io::Read::read_to_string(&mut std::io::stdin(), &mut sink);
+        return;
+    }
+    let mut replica_proc = std::env::current_exe().ok().and_then(|exe| {
+        std::process::Command::new(exe)
+            .arg("replica")
+            .stdin(std::process::Stdio::piped())
+            .stdout(std::process::Stdio::piped())
+            .stderr(std::process::Stdio::null())
+            .spawn()
+            .ok()
+    });
+    let replica_addr: Option<std::net::SocketAddr> = replica_proc.as_mut().and_then(|c| {
+        let mut line = String::new();
+        let so = c.stdout.as_mut()?;
+        std::io::BufRead::read_line(&mut std::io::BufReader::new(so), &mut line).ok()?;
+        let port: u16 = line.trim().parse().ok()?;
+        Some(std::net::SocketAddr::from(([127, 0, 0, 1], port)))
+    });
+    if replica_addr.is_none() {
+        eprintln!("c15: no second instance (scans are asked of one instance only)");
+    }
     let mut rng = Rng::from_env(15);
     let mut id = 0u64;
 
@@ -551,7 +597,7 @@ fn main() {
         let my: Vec<(usize, u64, Option<u64>)> = jobs.iter().filter(|j| j.0 == mi).cloned().collect();
         let ranks = ranks.clone();
         handles.push(std::thread::spawn(move || {
-            let mut cl = Client { addr, rr: None, form: 0 };
+            let mut cl = Client { addr, rr: None, form: 0, replica: None, flip: false };
             let m = &MODES[mi];
             let mut res = Vec::new();
             for (k, (_, n, l)) in my.into_iter().enumerate() {
@@ -563,9 +609,12 @@ fn main() {
                     5 if n <= 10001 => 2,
                     _ => 0,
                 };
+                // some scans alternate between the two instances of the service
+                cl.replica = if k % 7 == 6 && n <= 10001 { replica_addr } else { None };
+                cl.flip = false;
                 cl.rr = None;
                 let r = scan(&mut cl, m, n, l, &ranks[&(n, m.label)]);
-                res.push((m.label, n, l, r, cl.form));
+                res.push((m.label, n, l, r, if cl.replica.is_some() { 3 } else { cl.form }));
             }
             res
         }));
@@ -575,7 +624,7 @@ fn main() {
             id += 1;
             out.line(&format!(
                 "scan c{}{} {} {} {} => {}",
-                ["", "abs", "h2"][form as usize],
+                ["", "abs", "h2", "rep"][form as usize],
                 id,
                 label,
                 n,
@@ -585,6 +634,10 @@ fn main() {
         }
     }
     stop.store(true, std::sync::atomic::Ordering::SeqCst);
+    if let Some(mut c) = replica_proc.take() {
+        drop(c.stdin.take());
+        let _ = c.wait();
+    }
     let (sent, n500, other) = noise.join().unwrap();
     out.line(&format!("noise z1 long {} => {} {}", if sent >= 40 { "many" } else { "few" }, (n500 == sent) as u8, other));
     out.flush();
